@@ -1,36 +1,32 @@
 import SockModel.Drive.Common
 import SockModel.Basic.Decimal
-import SockModel.Model.Addr
+import SockModel.Spec.C13
 /-! Driver for C13: validates `scen/address_order.cpp` transcripts.
 
-* correspondence (model side): every raw image is the canonical `encode` of the field tuple read
-  through the accessors; every reported `== != <`, every `std::map` lookup / iteration order equals
-  what `Model/Addr.lean` computes from the raw images; `std::hash` is `hash<string_view>` of exactly
-  the image bytes.
-* property, on observations only: `==` iff the accessor field tuples agree, `!=` its negation,
-  exactly one of `<`, `==`, `>`; `<` transitive over all reported pairs; equal ⇒ equal hash;
-  containers find the first key with the same field tuple and hold one entry per distinct tuple;
-  endpoint agreement per connection / datagram; a bind to port 0 reports a non-zero port.
+Every transcript line is parsed into ONE typed observation `Addr.Obs` (`Spec/C13.lean`).  Then
+* spec: `Addr.specStep` - the property predicate of `Spec/C13.lean`, on the observations only (accessor
+  values and reported results; no raw image, no model state).  This file contains no property clause of its
+  own (one source of truth; `Addr.model_satisfies_spec` proves that the predicate accepts every trace of the
+  model).  A line that cannot be typed (unparsable numbers, a label reported twice, a comparison / lookup of
+  a label that was never reported, an unknown observation) is a `corr` verdict: the harness cannot produce it;
+* correspondence (model side): every raw image is the canonical `encode` of the field tuple read through the
+  accessors; every reported `== != <`, every `std::map` lookup / iteration order equals what `Model/Addr.lean`
+  computes from the raw images (`Addr.omOf`, the composition the model trace uses); `std::hash` is
+  `hash<string_view>` of exactly the image bytes.  The first difference is remembered and the run continues: a
+  later direct property failure is the more useful report.
 -/
 namespace SockModel.Drive.C13
 open SockModel SockModel.Drive SockModel.Addr
 
-structure AddrObs where
-  label : String
-  prov : String
+/-- one `-> addr` line: the typed observation plus what only the correspondence looks at -/
+structure AddrRec where
+  o : AddrObs
   img : List UInt8
   host : List UInt8
-  serv : List UInt8
-  port : Nat
-  v6 : Bool
-  ip : List UInt8
-  scope : Nat
   hash : String
   href : String
   str : List UInt8
   deriving Inhabited
-
-def AddrObs.fields (a : AddrObs) : Fields := { v6 := a.v6, ip := a.ip, port := a.port, flow := 0, scope := a.scope }
 
 def kv (ws : List String) (k : String) : Option String :=
   ws.findSome? fun w => match w.splitOn "=" with
@@ -43,142 +39,58 @@ def flag (ws : List String) (k : String) : Option Bool :=
   | some "0" => some false
   | _ => none
 
-def parseAddr (prov : String) (ws : List String) : Option AddrObs :=
+def parseAddr (prov : String) (ws : List String) : Option AddrRec :=
   match ws with
   | label :: img :: rest => do
-    pure { label, prov, img := ← hexDecode img, host := ← (kv rest "host") >>= hexDecode,
-           serv := ← (kv rest "serv") >>= hexDecode, port := ← (kv rest "port") >>= String.toNat?,
-           v6 := ← flag rest "v6", ip := ← (kv rest "ip") >>= hexDecode,
-           scope := ← (kv rest "scope") >>= String.toNat?, hash := ← kv rest "hash", href := ← kv rest "href",
-           str := ← (kv rest "str") >>= hexDecode }
+    let img ← hexDecode img
+    let host ← (kv rest "host") >>= hexDecode
+    let serv ← (kv rest "serv") >>= hexDecode
+    let port ← (kv rest "port") >>= String.toNat?
+    let v6 ← flag rest "v6"
+    let ip ← (kv rest "ip") >>= hexDecode
+    let scope ← (kv rest "scope") >>= String.toNat?
+    let hash ← kv rest "hash"
+    let href ← kv rest "href"
+    let str ← (kv rest "str") >>= hexDecode
+    pure { o := { label, prov, serv, port, v6, ip, scope }, img, host, hash, href, str }
   | _ => none
 
-structure CmpObs where
-  l1 : String
-  l2 : String
-  eq : Bool
-  lt : Bool
-  gt : Bool
-
 structure St where
-  addrs : Array AddrObs := #[]
-  cmps : Array CmpObs := #[]
+  sp : SpecSt := {}               -- the observer's state of `Spec/C13.lean`
+  recs : Array AddrRec := #[]     -- the raw images etc. (correspondence)
   op : List String := []          -- the op whose observations are being read
-  opAddrs : List String := []     -- labels reported since the op line
   tags : List String := []
   corr : Option String := none    -- first correspondence difference (the run continues: a later
                                   -- direct property failure is the more useful report)
 
-def St.dropOp (s : St) : St := { s with op := [], opAddrs := [] }
+def St.dropOp (s : St) : St := { s with op := [] }
 
 def St.note (s : St) (msg : String) : St := if s.corr.isSome then s else { s with corr := some msg }
 
-def St.find (s : St) (label : String) : Option AddrObs := s.addrs.find? (·.label = label)
+def St.rec? (s : St) (label : String) : Option AddrRec := s.recs.find? (·.o.label = label)
 
-def ok? (b : Bool) (msg : String) : Except String Unit := if b then pure () else throw msg
-
-/-- property checks on a freshly reported address (observations only) -/
-def specAddr (s : St) (a : AddrObs) : Except String Unit := do
-  ok? (a.serv == Decimal.render a.port) s!"{a.label}: Service() is not the decimal text of Port() {a.port}"
-  let same (b : AddrObs) (what : String) : Except String Unit :=
-    ok? (a.fields == b.fields) s!"{a.label} differs from {b.label} in family/host/port/scope ({what})"
-  match s.op with
-  | ["port", _, n] => ok? (some a.port == n.toNat? ∧ !a.v6) s!"{a.label}: Address({n}) reports port {a.port}"
-  | [k, name, _, bind] =>
-    if (k = "udp" ∨ k = "acceptor") ∧ a.label = name ++ ".l" then
-      match s.find bind with
-      | some b =>
-        ok? (a.v6 == b.v6 ∧ a.ip == b.ip ∧ a.scope == b.scope) s!"{a.label}: bound to {bind} but reports another host"
-        if b.port = 0 then ok? (a.port ≠ 0) s!"{a.label}: socket bound to port 0 reports port 0"
-        else ok? (a.port = b.port) s!"{a.label}: bound to port {b.port} but reports {a.port}"
-      | none => pure ()
-    else if k = "dgram" ∧ a.label = name then
-      match s.find (s.op.getD 2 "" ++ ".l") with
-      | some b => same b "datagram source vs. sender's LocalAddress"
-      | none => pure ()
-    else if k = "respell" ∧ a.label = name then
-      match s.find (s.op.getD 2 "") with
-      | some b => same b "re-parsed text vs. original"
-      | none => pure ()
-    else pure ()
-  | _ => pure ()
-
-/-- endpoint agreement once all five addresses of a connection are known -/
-def specConn (s : St) (c acc : String) : Except String Unit := do
-  match s.find (c ++ ".cl"), s.find (c ++ ".cp"), s.find (c ++ ".rep"), s.find (c ++ ".sl"), s.find (c ++ ".sp") with
-  | some cl, some cp, some rep, some sl, some sp =>
-    ok? (cl.fields == rep.fields) s!"{c}: client LocalAddress differs from the address reported on accept"
-    ok? (cl.fields == sp.fields) s!"{c}: client LocalAddress differs from the server-side PeerAddress"
-    ok? (cp.fields == sl.fields) s!"{c}: client PeerAddress differs from the server-side LocalAddress"
-    ok? (cl.port ≠ 0) s!"{c}: client reports local port 0"
-    match s.find (acc ++ ".l") with
-    | some al => ok? (cp.fields == al.fields) s!"{c}: client PeerAddress differs from the acceptor's LocalAddress"
-    | none => pure ()
-  | _, _, _, _, _ => throw s!"{c}: connection did not report all five addresses"
-
-def idxOf (s : St) (label : String) : Option Nat := s.addrs.findIdx? (·.label = label)
-
-/-- transitivity of the reported `<` and `==` over all reported pairs (observations only) -/
-def specTrans (s : St) : Except String Unit := do
-  let n := s.addrs.size
-  let mut ltM : Array Bool := Array.replicate (n * n) false
-  let mut eqM : Array Bool := Array.replicate (n * n) false
-  let mut known : Array Bool := Array.replicate (n * n) false
-  for c in s.cmps do
-    match idxOf s c.l1, idxOf s c.l2 with
-    | some i, some j =>
-      ltM := (ltM.set! (i * n + j) c.lt).set! (j * n + i) c.gt
-      eqM := (eqM.set! (i * n + j) c.eq).set! (j * n + i) c.eq
-      known := (known.set! (i * n + j) true).set! (j * n + i) true
-    | _, _ => pure ()
-  for i in [0:n] do
-    for j in [0:n] do
-      if known[i * n + j]! then
-        for k in [0:n] do
-          if known[j * n + k]! ∧ known[i * n + k]! then
-            let li := s.addrs[i]!.label; let lj := s.addrs[j]!.label; let lk := s.addrs[k]!.label
-            if ltM[i * n + j]! ∧ ltM[j * n + k]! ∧ !ltM[i * n + k]! then
-              throw s!"< is not transitive: {li} < {lj} < {lk} but not {li} < {lk}"
-            if eqM[i * n + j]! ∧ eqM[j * n + k]! ∧ !eqM[i * n + k]! then
-              throw s!"== is not transitive: {li} == {lj} == {lk} but not {li} == {lk}"
-            if eqM[i * n + j]! ∧ ltM[j * n + k]! ≠ ltM[i * n + k]! then
-              throw s!"< does not respect ==: {li} == {lj} but they compare differently with {lk}"
-  pure ()
+/-- an op line as a typed observation -/
+def classify (w : List String) : OpLine :=
+  let head : Head := match w with
+    | "udp" :: _ => .udp
+    | "acceptor" :: _ => .acceptor
+    | "connectvia" :: _ => .connectvia
+    | _ => .other
+  let k : OpK := match w with
+    | ["port", _, n] => .port ⟨n, n.toNat?⟩
+    | [k, name, x, bind] =>
+      if k = "udp" ∨ k = "acceptor" then .bind name bind
+      else if k = "dgram" then .dgram name x
+      else if k = "respell" then .respell name x
+      else if k = "connect" then .connect name bind
+      else .other
+    | ["connectvia", c, _, _, _] => .connectvia c
+    | ["cmpall"] => .cmpall
+    | _ => .other
+  { k, head, text := " ".intercalate w }
 
 /-- model of `std::map<Address, label>::emplace` for all addresses in creation order -/
-def modelMap (s : St) : List (Image × String) :=
-  s.addrs.foldl (fun m a => match mapFind a.img m with
-    | some _ => m
-    | none => mapInsert a.img a.label m) []
-
-def firstWithFields (s : St) (f : Fields) : Option String := (s.addrs.find? (·.fields == f)).map (·.label)
-
-def distinctFields (s : St) : Nat :=
-  (s.addrs.foldl (fun (acc : List Fields) a => if acc.contains a.fields then acc else a.fields :: acc) []).length
-
-def b2s (b : Bool) : String := if b then "1" else "0"
-
-/-- finish the op whose observations have all been read -/
-def finishOp (s : St) : Except (String × String) St := do
-  match s.op with
-  | ["connect", c, kind, acc] =>
-    if s.opAddrs.isEmpty then pure { s with op := [] }  -- skipped / failed, reported separately
-    else
-      match specConn s c acc with
-      | .error m => throw ("spec", m)
-      | .ok _ => pure { s with op := [], tags := s!"connect.{kind}" :: s.tags }
-  | ["connectvia", c, _, _, _] =>
-    if s.opAddrs.isEmpty then pure { s with op := [] }
-    else
-      -- the acceptor's own LocalAddress may be a wildcard here: only the two ends are compared
-      match specConn s c "" with
-      | .error m => throw ("spec", m)
-      | .ok _ => pure { s with op := [], tags := "connectvia" :: s.tags }
-  | ["cmpall"] =>
-    match specTrans s with
-    | .error m => throw ("spec", m)
-    | .ok _ => pure { s with op := [], tags := "cmpall" :: s.tags }
-  | _ => pure { s with op := [] }
+def modelMap (s : St) : List (Image × String) := omOf (s.recs.toList.map fun r => (r.img, r.o.label))
 
 def provOf (op : List String) : String :=
   match op with
@@ -187,112 +99,109 @@ def provOf (op : List String) : String :=
   | k :: _ => k
   | [] => "?"
 
+/-- evaluate the predicate on one observation -/
+def spec (s : St) (o : Obs) : Except (String × String) St :=
+  match specStep s.sp o with
+  | .error m => .error ("spec", m)
+  | .ok sp => .ok { s with sp }
+
+/-- tags of the op that is being finished (evidence only) -/
+def finishTags (s : St) : List String :=
+  match s.op with
+  | ["connect", _, kind, _] => if s.sp.opAddrs = 0 then [] else [s!"connect.{kind}"]
+  | ["connectvia", _, _, _, _] => if s.sp.opAddrs = 0 then [] else ["connectvia"]
+  | ["cmpall"] => ["cmpall"]
+  | _ => []
+
 def handleObs (s : St) (ws : List String) : Except (String × String) St := do
   match ws with
   | "addr" :: rest =>
     match parseAddr (provOf s.op) rest with
     | none => throw ("corr", "unparsable addr observation " ++ " ".intercalate ws)
-    | some a =>
-      if (s.find a.label).isSome then throw ("corr", s!"label {a.label} reported twice")
-      match specAddr s a with
-      | .error m => throw ("spec", m)
-      | .ok _ => pure ()
+    | some r =>
+      let a := r.o
+      if (s.sp.find a.label).isSome then throw ("corr", s!"label {a.label} reported twice")
+      let mut s ← spec s (.addr a)
       -- canonical image: the provenance hypothesis of `encode_injective`
-      let mut s := s
       if a.ip.length ≠ (if a.v6 then 16 else 4) then
         s := s.note s!"{a.label}: Host() is not a numeric literal of the reported family"
-      if a.img ≠ encode a.fields then
-        s := s.note s!"{a.label} ({a.prov}): raw image {hexEncode a.img} is not the canonical image {hexEncode (encode a.fields)} of its accessor fields"
-      if a.hash ≠ a.href then
-        s := s.note s!"{a.label}: std::hash<Address> is not hash<string_view> of the {a.img.length} image bytes"
-      if a.str ≠ Addr.toString a.v6 a.host a.serv then
+      if r.img ≠ encode a.fields then
+        s := s.note s!"{a.label} ({a.prov}): raw image {hexEncode r.img} is not the canonical image {hexEncode (encode a.fields)} of its accessor fields"
+      if r.hash ≠ r.href then
+        s := s.note s!"{a.label}: std::hash<Address> is not hash<string_view> of the {r.img.length} image bytes"
+      if r.str ≠ Addr.toString a.v6 r.host a.serv then
         s := s.note s!"{a.label}: to_string is not host:serv / [host]:serv"
       let t := [a.prov, if a.v6 then "v6" else "v4"] ++ (if a.scope ≠ 0 then ["scoped"] else [])
-      pure { s with addrs := s.addrs.push a, opAddrs := a.label :: s.opAddrs, tags := t ++ s.tags }
+      pure { s with recs := s.recs.push r, tags := t ++ s.tags }
   | ["cmp", l1, l2, e, ne, l, g, h] =>
-    match s.find l1, s.find l2, flag [e] "eq", flag [ne] "ne", flag [l] "lt", flag [g] "gt", flag [h] "heq" with
+    match s.rec? l1, s.rec? l2, flag [e] "eq", flag [ne] "ne", flag [l] "lt", flag [g] "gt", flag [h] "heq" with
     | some a, some b, some eq, some ne, some lt, some gt, some heq =>
-      let fe := a.fields == b.fields
-      if eq ≠ fe then
-        throw ("spec", s!"{l1} == {l2} is {eq} but family/host/port/scope " ++ (if fe then "agree" else "differ") ++
-          s!" ({a.prov} vs {b.prov})")
-      if ne = eq then throw ("spec", s!"{l1} != {l2} is not the negation of ==")
-      if (if lt then 1 else 0) + (if eq then 1 else 0) + (if gt then 1 else 0) ≠ 1 then
-        throw ("spec", s!"{l1} vs {l2}: not exactly one of <, ==, > holds (lt={b2s lt} eq={b2s eq} gt={b2s gt})")
-      if eq ∧ !heq then throw ("spec", s!"{l1} == {l2} but their std::hash differ")
-      if l1 = l2 ∧ (lt ∨ !eq) then throw ("spec", s!"{l1} compared with itself: < or not ==")
-      let mut s := s
+      let mut s ← spec s (.cmp l1 l2 eq ne lt gt heq)
       if eq ≠ Addr.eq a.img b.img ∨ ne ≠ Addr.ne a.img b.img then
         s := s.note s!"{l1} == {l2}: impl {eq}, model {Addr.eq a.img b.img}"
       if lt ≠ Addr.lt a.img b.img ∨ gt ≠ Addr.lt b.img a.img then
         s := s.note s!"{l1} < {l2}: impl {lt}/{gt}, model {Addr.lt a.img b.img}/{Addr.lt b.img a.img}"
-      let t := (if eq then (if a.prov ≠ b.prov then ["cmp.eq.xprov"] else ["cmp.eq"]) else
-                if a.v6 ≠ b.v6 then ["cmp.mixed"] else if lt then ["cmp.lt"] else ["cmp.gt"])
-      pure { s with cmps := s.cmps.push ⟨l1, l2, eq, lt, gt⟩, tags := t ++ s.tags }
+      let t := (if eq then (if a.o.prov ≠ b.o.prov then ["cmp.eq.xprov"] else ["cmp.eq"]) else
+                if a.o.v6 ≠ b.o.v6 then ["cmp.mixed"] else if lt then ["cmp.lt"] else ["cmp.gt"])
+      pure { s with tags := t ++ s.tags }
     | _, _, _, _, _, _, _ => throw ("corr", "bad cmp observation " ++ " ".intercalate ws)
   | ["map", l, found, ufound] =>
-    match s.find l with
+    match s.rec? l with
     | none => throw ("corr", s!"map lookup of unknown label {l}")
     | some a =>
-      let want := firstWithFields s a.fields
-      if some found ≠ want then
-        throw ("spec", s!"std::map lookup of {l} finds {found}, the first address with the same family/host/port/scope is {want.getD "none"}")
-      if some ufound ≠ want then
-        throw ("spec", s!"std::unordered_map lookup of {l} finds {ufound}, expected {want.getD "none"}")
-      let mut s := s
+      let mut s ← spec s (.map l found ufound)
       if mapFind a.img (modelMap s) ≠ some found then
         s := s.note s!"std::map lookup of {l}: impl {found}, model {(mapFind a.img (modelMap s)).getD "none"}"
       pure { s with tags := "maps" :: s.tags }
   | "maporder" :: labels =>
+    let s ← spec s (.maporder labels)
     let m := (modelMap s).map (·.2)
-    if labels.length ≠ distinctFields s then
-      throw ("spec", s!"std::map holds {labels.length} keys for {distinctFields s} distinct addresses")
     if labels ≠ m then pure (s.note s!"std::map iteration order: impl {labels}, model {m}") else
     pure s
-  | ["mapsize", n, un] =>
-    let d := distinctFields s
-    if n.toNat? ≠ some d ∨ un.toNat? ≠ some d then
-      throw ("spec", s!"containers hold {n} / {un} entries for {d} distinct addresses")
-    pure s
-  | "crash" :: w => throw ("spec", "crash: " ++ " ".intercalate w)
+  | ["mapsize", n, un] => spec s (.mapsize ⟨n, n.toNat?⟩ ⟨un, un.toNat?⟩)
+  | "crash" :: w => spec s (.crash (" ".intercalate w))
   | "throw" :: cls :: _ =>
+    let s' ← spec s (.threw (cls = "nonstd"))
     match s.op with
-    | "udp" :: _ => pure { s with tags := "bindfail" :: s.tags }
-    | "acceptor" :: _ => pure { s with tags := "bindfail" :: s.tags }
-    | "connectvia" :: _ =>
-      -- reaching a listener through another local address may be refused (e.g. IPV6_V6ONLY): not a violation
-      if cls = "nonstd" then throw ("spec", "non-standard exception from " ++ " ".intercalate s.op)
-      else pure { s.dropOp with tags := "connectvia.refused" :: s.tags }
-    | _ =>
-      if cls = "nonstd" then throw ("spec", "non-standard exception from " ++ " ".intercalate s.op)
-      else pure (s.note (s!"unexpected exception {cls} from " ++ " ".intercalate s.op))
-  | "addrfail" :: l :: _ => throw ("spec", s!"accessors of {l} throw")
-  | "fail" :: w => pure ((s.note ("harness: " ++ " ".intercalate w ++ " in " ++ " ".intercalate s.op)).dropOp)
-  | "locals" :: _ => pure s
-  | "spelled" :: _ => pure s
-  | "skip" :: _ => pure { s with tags := "skip" :: s.tags }
+    | "udp" :: _ => pure { s' with tags := "bindfail" :: s.tags }
+    | "acceptor" :: _ => pure { s' with tags := "bindfail" :: s.tags }
+    | "connectvia" :: _ => pure { s'.dropOp with tags := "connectvia.refused" :: s.tags }
+    | _ => pure (s'.note (s!"unexpected exception {cls} from " ++ " ".intercalate s.op))
+  | "addrfail" :: l :: _ => spec s (.addrfail l)
+  | "fail" :: w =>
+    let s' ← spec s .fail
+    pure ((s'.note ("harness: " ++ " ".intercalate w ++ " in " ++ " ".intercalate s.op)).dropOp)
+  | "locals" :: _ => spec s .quiet
+  | "spelled" :: _ => spec s .quiet
+  | "skip" :: _ =>
+    let s ← spec s .quiet
+    pure { s with tags := "skip" :: s.tags }
   | _ => throw ("corr", "unknown observation " ++ " ".intercalate ws)
 
-partial def go (s : St) : List String → Verdict
+def step (s : St) (l : String) : Except (String × String) St :=
+  match words l with
+  | [] => .ok s
+  | "->" :: obs => handleObs s obs
+  | w =>
+    -- an op line: the previous op is finished (`specStep` does that), then this one is being read
+    let t := finishTags s
+    match spec s (.op (classify w)) with
+    | .error e => .error e
+    | .ok s' => .ok { s' with op := w, tags := t ++ s'.tags }
+
+def go (s : St) : List String → Verdict
   | [] =>
-    match finishOp s with
-    | .error (k, m) => { fail := some (k, m), tags := s.tags }
+    let t := finishTags s
+    match spec s .fin with
+    | .error e => { fail := some e, tags := s.tags }
     | .ok s =>
       match s.corr with
-      | some m => Verdict.corr m s.tags
-      | none => { tags := s.tags }
+      | some m => Verdict.corr m (t ++ s.tags)
+      | none => { tags := t ++ s.tags }
   | l :: rest =>
-    let w := words l
-    match w with
-    | [] => go s rest
-    | "->" :: obs =>
-      match handleObs s obs with
-      | .error (k, m) => { fail := some (k, m), tags := s.tags }
-      | .ok s' => go s' rest
-    | _ =>
-      match finishOp s with
-      | .error (k, m) => { fail := some (k, m), tags := s.tags }
-      | .ok s' => go { s' with op := w, opAddrs := [] } rest
+    match step s l with
+    | .error e => { fail := some e, tags := s.tags }
+    | .ok s' => go s' rest
 
 def runCase (body : List String) : Verdict := go {} body
 
